@@ -151,6 +151,12 @@ FILLER = [
     ("F{i}_M6 = \"</>\"  # </>", "t"),
     ("F{i}_BS = r\"a\\<b\"", ""),
     ("F{i}_T2 = '''<b>\nmulti</b>\n'''", "mt"),
+    # multi-line strings containing characters that str.splitlines() treats as line breaks but Python's
+    # tokenizer (and the line numbering of the source) does not: form feed, FS, NEL, LINE SEPARATOR
+    ("F{i}_FF = \"\"\"doc\x0cfeed\nnext line\"\"\"", "m"),
+    ("F{i}_FS = \"\"\"doc\x1csep\nnext\x1d line\n\"\"\"", "m"),
+    ("F{i}_NEL = \"\"\"doc\x85nel\nnext line\"\"\"", "m"),
+    ("F{i}_LS = '''doc\u2028ls\u2029ps\nnext line'''", "m"),
 ]
 
 SITES = ["plain", "multiline", "method", "generator", "closure", "vendor", "exec", "inline_first", "last_line"]
